@@ -32,7 +32,9 @@ type mpt struct {
 
 var tries []mpt
 
-type hasher interface{ Has(key []byte) (bool, error) }
+type hasher interface {
+	Has(key []byte) (bool, error)
+}
 
 func verifyProofOracle(root [32]byte, key []byte, db interface{}) ([]byte, error, bool) {
 	h, ok := db.(hasher)
